@@ -19,6 +19,8 @@ from . import symx
 _FN_CACHE = {}
 _STOP = None  # shared array (one flag per job): set by the parent once a job has produced enough counterexamples
 MAX_VIOL_PER_JOB = int(os.environ.get("VERIF_MAX_VIOL_PER_JOB", "2"))
+MAX_VIOL_TOTAL = int(os.environ.get("VERIF_MAX_VIOL_TOTAL", "6"))  # per run_jobs call: enough candidates to replay; the rest of the exploration is abandoned (reported as stopped)
+_TOTAL_VIOL = [0]
 
 
 def _get_fn(job):
@@ -109,6 +111,7 @@ def run_jobs(jobs, nproc=None, chunk=8, max_paths_per_job=200000, on_record=None
     from concurrent.futures.process import BrokenProcessPool
 
     global _STOP
+    _TOTAL_VIOL[0] = 0
     ctx = mp.get_context("fork")
     _STOP = ctx.Array("i", len(jobs) + 1, lock=False)
     for i, j in enumerate(jobs):
@@ -135,8 +138,8 @@ def run_jobs(jobs, nproc=None, chunk=8, max_paths_per_job=200000, on_record=None
                 pending.clear()
             while pending and len(inflight) < nproc * 2:
                 t = pending.pop()
-                if res[t[0]["id"]]["nviol"] >= MAX_VIOL_PER_JOB:
-                    res[t[0]["id"]]["stopped"] = True  # enough counterexamples from this job: do not explore it further
+                if res[t[0]["id"]]["nviol"] >= MAX_VIOL_PER_JOB or _TOTAL_VIOL[0] >= MAX_VIOL_TOTAL:
+                    res[t[0]["id"]]["stopped"] = True  # enough counterexamples (from this job / in total): do not explore further
                     continue
                 try:
                     inflight[pool.submit(_work, t)] = (t, time.time())
@@ -211,8 +214,12 @@ def _absorb(out, res, by_id, seen_reg, pending, chunk, max_paths, on_record):
         r["npaths"] += 1
         if rec["status"] == "violation" and not _is_known(rec):
             r["nviol"] += 1
+            _TOTAL_VIOL[0] += 1
             if r["nviol"] >= MAX_VIOL_PER_JOB and _STOP is not None and job.get("_idx") is not None:
                 _STOP[job["_idx"]] = 1
+            if _TOTAL_VIOL[0] >= MAX_VIOL_TOTAL and _STOP is not None:
+                for i in range(len(_STOP)):
+                    _STOP[i] = 1
         if on_record:
             on_record(jid, rec)
         r["records"].append(_slim(rec))
